@@ -31,6 +31,10 @@ pub enum Act {
   /// publish only: subscribe to the connectable value itself (which consumes
   /// it: it can no longer be connected, and its source must never be subscribed)
   SubDirect,
+  /// a subscriber that, inside its first `next` callback, subscribes one more
+  /// subscriber to the same shared / published observable (for a cold
+  /// synchronous source the only way to join between two source events)
+  SubArmed,
   Unsub(usize),
   Emit,
   SrcComplete,
@@ -82,6 +86,42 @@ struct SubRec {
   handle: Option<Box<dyn crate::props::c06::SubHandle>>,
 }
 
+thread_local! {
+  /// subscribers that joined from inside a callback during the current action
+  static JOINED: std::cell::RefCell<Vec<SubRec>> = const { std::cell::RefCell::new(Vec::new()) };
+}
+
+/// A probe that subscribes one more probe from inside its first `next`.
+struct JoinProbe<J> {
+  inner: Probe,
+  armed: Arc<std::sync::atomic::AtomicBool>,
+  join: J,
+}
+impl<J> Observer<Val, E> for JoinProbe<J>
+where
+  J: Fn(Probe) -> Box<dyn crate::props::c06::SubHandle>,
+{
+  fn next(&mut self, v: Val) {
+    Observer::<Val, E>::next(&mut self.inner, v);
+    if self.armed.swap(false, SeqCst) {
+      let log = ProbeLog::new(false);
+      let invoke = shared().stamp();
+      let h = (self.join)(Probe(log.clone()));
+      let ret = shared().stamp();
+      JOINED.with(|j| j.borrow_mut().push(SubRec { log, invoke, ret, unsub_invoke: None, handle: Some(h) }));
+    }
+  }
+  fn error(self, e: E) {
+    Observer::<Val, E>::error(self.inner, e)
+  }
+  fn complete(self) {
+    Observer::<Val, E>::complete(self.inner)
+  }
+  fn is_finished(&self) -> bool {
+    Observer::<Val, E>::is_finished(&self.inner)
+  }
+}
+
 pub struct C11;
 
 impl Scenario for C11 {
@@ -111,11 +151,17 @@ impl Scenario for C11 {
     let mut ever = 0usize;
     let mut all_left = false;
     for _ in 0..len {
-      let a = match rng.weighted(&[5, 3, 6, 1, 1, if kind == Kind::Publish { 2 } else { 0 }, 3, 3, if kind == Kind::Publish && ever < 4 { 1 } else { 0 }]) {
+      let a = match rng.weighted(&[5, 3, 6, 1, 1, if kind == Kind::Publish { 2 } else { 0 }, 3, 3, if kind == Kind::Publish && ever < 4 { 1 } else { 0 }, if ever < 3 { 1 } else { 0 }]) {
         8 => {
           live += 1;
           ever += 1;
           Act::SubDirect
+        }
+        9 => {
+          live += 2;
+          ever += 2;
+          all_left = false;
+          Act::SubArmed
         }
         0 if (!all_left || rng.chance(1, 2)) && ever < 4 => {
           all_left = false;
@@ -155,7 +201,8 @@ impl Scenario for C11 {
     let site = format!("{:?}{}", case.kind, if case.threads_flavour { "_threads" } else { "" }).to_lowercase();
 
     // subscriber factory + connect closure, per flavour
-    let mut subscribe_fn: Box<dyn FnMut(Probe) -> Box<dyn crate::props::c06::SubHandle>>;
+    let subscribe_fn: Box<dyn Fn(Probe) -> Box<dyn crate::props::c06::SubHandle>>;
+    let arm_fn: Box<dyn Fn(Probe) -> Box<dyn crate::props::c06::SubHandle>>;
     let mut connect_fn: Option<Box<dyn FnOnce() -> bool>> = None;
     let mut direct_fn: Option<Box<dyn FnOnce(Probe) -> Option<Box<dyn crate::props::c06::SubHandle>>>> = None;
     macro_rules! build {
@@ -176,11 +223,23 @@ impl Scenario for C11 {
         match case.kind {
           Kind::Share => {
             let s = src.$share();
+            let s2 = s.clone();
+            arm_fn = Box::new(move |p| {
+              let s3 = s2.clone();
+              let join = move |q: Probe| -> Box<dyn crate::props::c06::SubHandle> { Box::new(s3.clone().actual_subscribe(q)) };
+              Box::new(s2.clone().actual_subscribe(JoinProbe { inner: p, armed: Arc::new(std::sync::atomic::AtomicBool::new(true)), join }))
+            });
             subscribe_fn = Box::new(move |p| Box::new(s.clone().actual_subscribe(p)));
           }
           Kind::Publish => {
             let c = src.publish::<$subject>();
             let f = c.fork();
+            let f2 = f.clone();
+            arm_fn = Box::new(move |p| {
+              let f3 = f2.clone();
+              let join = move |q: Probe| -> Box<dyn crate::props::c06::SubHandle> { Box::new(f3.clone().actual_subscribe(q)) };
+              Box::new(f2.clone().actual_subscribe(JoinProbe { inner: p, armed: Arc::new(std::sync::atomic::AtomicBool::new(true)), join }))
+            });
             subscribe_fn = Box::new(move |p| Box::new(f.clone().actual_subscribe(p)));
             let cell = std::rc::Rc::new(std::cell::RefCell::new(Some(c)));
             let (c1, c2) = (cell.clone(), cell);
@@ -216,10 +275,12 @@ impl Scenario for C11 {
       _ => 0,
     };
     let mut left_time: Option<u64> = None;
+    let mut joined_inside = 0u64;
+    JOINED.with(|j| j.borrow_mut().clear());
 
     for a in &case.acts {
       match a {
-        Act::Sub => {
+        Act::Sub | Act::SubArmed => {
           // a subscriber joining after everybody had left starts a new epoch: whatever
           // the source still emits on the share's behalf must reach it (presence oracle)
           if last_left_at.is_some() {
@@ -229,13 +290,22 @@ impl Scenario for C11 {
           }
           let log = ProbeLog::new(false);
           let invoke = w.shared.stamp();
-          let h = subscribe_fn(Probe(log.clone()));
+          let armed = *a == Act::SubArmed;
+          let h = match std::panic::catch_unwind(std::panic::AssertUnwindSafe(|| if armed { arm_fn(Probe(log.clone())) } else { subscribe_fn(Probe(log.clone())) })) {
+            Ok(h) => h,
+            Err(p) => {
+              let msg = panic_message(&*p);
+              let rule = if msg.contains("SelfDeadlock") { "c11.self-deadlock" } else { "c11.panic" };
+              violation = Some(Violation { rule: rule.into(), site: format!("{} src={}", site, src_name(&case.src)), detail: format!("`{}` then {}: {}", trace.trim(), if armed { "a subscriber that lets another one join from inside its first callback subscribed" } else { "subscribe" }, msg) });
+              break;
+            }
+          };
           let ret = w.shared.stamp();
           if case.kind == Kind::Share && connected_at.is_none() {
             connected_at = Some(invoke);
           }
           subs.push(SubRec { log, invoke, ret, unsub_invoke: None, handle: Some(h) });
-          trace.push_str(&format!("sub{} ", subs.len() - 1));
+          trace.push_str(&format!("sub{}{} ", subs.len() - 1, if armed { "(lets one more join from inside its first callback)" } else { "" }));
         }
         Act::Unsub(k) => {
           if subs.is_empty() {
@@ -309,6 +379,11 @@ impl Scenario for C11 {
           w.run_ready_fifo(50);
           trace.push_str(&format!("+{}ms ", ms));
         }
+      }
+      for j in JOINED.with(|j| std::mem::take(&mut *j.borrow_mut())) {
+        subs.push(j);
+        joined_inside += 1;
+        trace.push_str(&format!("(sub{} joined from inside a callback) ", subs.len() - 1));
       }
       // ---- invariants
       if violation.is_none() {
@@ -400,6 +475,7 @@ impl Scenario for C11 {
     let nsubs = subs.len();
     drop(subs);
     drop(subscribe_fn);
+    drop(arm_fn);
     drop(connect_fn);
     drop(direct_fn);
     let sim = w.now();
@@ -411,7 +487,7 @@ impl Scenario for C11 {
       sim_ns: sim,
       steps: case.acts.len() as u64,
       faults: vec![("emit_after_last_leave", emits_after_leave), ("subscribe_again_after_everybody_left", rejoined), ("last_subscriber_left_with_live_source", last_left_at.is_some() as u64)],
-      reach: vec![("last_share_subscriber_left_with_source_live", (last_left_at.is_some() && terminal.is_none()) as u64), ("standing_connection_probed_for_liveness", liveness_probed)],
+      reach: vec![("last_share_subscriber_left_with_source_live", (last_left_at.is_some() && terminal.is_none()) as u64), ("standing_connection_probed_for_liveness", liveness_probed), ("subscriber_joined_from_inside_a_callback", joined_inside)],
       resolved: None,
       sample,
     })
